@@ -1,91 +1,9 @@
 #!/usr/bin/env python3
-"""writes Proofs/GenKeysRc5.lean (tie of Gen/Keys_Rc5.lean to Impl/Rc5.lean); usage: gen_rc5_keys_tie.py OUT Gen/Keys_Rc5.lean
-The proof script names the `let` variables of the generated text: the naming of the translator (`fresh`) is replayed here for
-the straight-line key expansion, and checked against the result tuple of the generated definitions."""
-import sys, re
-GEN = open(sys.argv[2]).read()
+"""writes Proofs/GenKeysRc5.lean (tie of Gen/Keys_Rc5.lean to Impl/Rc5.lean, all keys); usage: gen_rc5_keys_tie.py OUT
+Independent of the text of Gen/Keys_Rc5.lean (no `let` names, no folded constants are replayed): only the names and
+arities of the regenerated functions are used."""
+import sys
 INST = [(32, 12, 16), (16, 16, 8), (64, 24, 24), (8, 12, 4)]
-PQ = {8: (0xb7, 0x9f), 16: (0xb7e1, 0x9e37), 32: (0xb7e15163, 0x9e3779b9), 64: (0xb7e151628aed2a6b, 0x9e3779b97f4a7c15)}
-
-
-def body(fn):
-    return GEN.split(f"def {fn} ")[1].split("\n\n")[0]
-
-
-class Names:
-    def __init__(self):
-        self.n = {}
-
-    def fresh(self, base):
-        k = self.n.get(base, 0)
-        self.n[base] = k + 1
-        return base if k == 0 else f"{base}_{k}"
-
-
-def lit(x, w):
-    return x if isinstance(x, str) else f"{x:#x}#{w}"
-
-
-def replay(w, r, b, S, L, nm, kiw):
-    """replays the naming of key_into_words (if kiw) and mix_in; returns (L0 after kiw, [states])"""
-    u, M = w // 8, (1 << w) - 1
-    isc = lambda x: isinstance(x, int)
-
-    def add(x, y):
-        return (x + y) & M if isc(x) and isc(y) else nm.fresh("wrapping_add_r")
-
-    def rotl(x, n):
-        if isc(x) and isc(n):
-            k = n % w
-            return ((x << k) | (x >> (w - k))) & M if k else x
-        return nm.fresh("rotate_left_r")
-    kst = []
-    if kiw:
-        L = [0] * ((b + u - 1) // u)
-        kst.append(list(L))
-        for i in range(b - 1, -1, -1):
-            j = i // u
-            rotl(L[j], 8)
-            L[j] = nm.fresh("key_as_words")
-            kst.append(list(L))
-    L0 = list(L)
-    S, L = list(S), list(L)
-    i = j = 0
-    a = bb = 0
-    states = [(list(S), list(L), i, j, a, bb)]
-    for _ in range(3 * max(len(L), len(S))):
-        S[i] = rotl(add(add(S[i], a), bb), 3)
-        a = S[i]
-        t = add(add(L[j], a), bb)
-        L[j] = rotl(t, add(a, bb))
-        bb = L[j]
-        i, j = (i + 1) % len(S), (j + 1) % len(L)
-        states.append((list(S), list(L), i, j, a, bb))
-    return L0, states, kst
-
-
-def kiw_steps(w, b, kst):
-    """`have hL : keyIntoWords w b (unpackBE b key) = #[…]`, one `rfl` per byte of the key"""
-    arr = lambda L: "#[" + ", ".join(lit(x, w) for x in L) + "]"
-    out = f"  have g0 : keyIntoWords {w} {b} (unpackBE {b} key) = kiwLoop {w} (unpackBE {b} key) {b} {arr(kst[0])} := rfl\n"
-    for k in range(b):
-        out += (f"  have g{k+1} : keyIntoWords {w} {b} (unpackBE {b} key) = kiwLoop {w} (unpackBE {b} key) {b-k-1} {arr(kst[k+1])} := by\n"
-                f"    rw [g{k}]; exact kiwLoop_step {w} (unpackBE {b} key) {b-k-1} {arr(kst[k])} {arr(kst[k+1])} rfl\n  clear g{k}\n")
-    out += f"  have hL : keyIntoWords {w} {b} (unpackBE {b} key) = {arr(kst[-1])} := g{b}\n"
-    return out
-
-
-def kiw_proof(w, r, b):
-    nm = Names()
-    _, _, kst = replay(w, r, b, [0] * (2 * (r + 1)), None, nm, True)
-    return kiw_steps(w, b, kst)
-
-
-def st(s, w):
-    S, L, i, j, a, b = s
-    return (f"({{ S := #[{', '.join(lit(x, w) for x in S)}], L := #[{', '.join(lit(x, w) for x in L)}], i := {i}, j := {j}, "
-            f"a := {lit(a, w)}, b := {lit(b, w)} }} : MixSt {w})")
-
 
 out = """import Lean
 import BlockCiphers.Gen.Keys_Rc5
@@ -94,57 +12,52 @@ import BlockCiphers.Impl.Rc5
 Tie of the regenerated key expansion of the `rc5` crate (`Gen/Keys_Rc5.lean`: `RC5::new`, `substitute_key`,
 `key_into_words`, `initialize_expanded_key_table`, `mix_in` for `RC5<u32, U12, U16>`, `RC5<u16, U16, U8>`,
 `RC5<u64, U24, U24>`, `RC5<u8, U12, U4>`) to the model `BC.Rc5.substituteKey`, `keyIntoWords`, `initTable`, `mixIn` of
-`Impl/Rc5.lean`, for ALL keys (resp. all key tables / key words for `mix_in`).  The key expansion is ARX with data-dependent
-rotations: nothing is bit-blasted.  Per function: `extract_lets`; `keyIntoWords` of the unpacked key and `initTable` are the
-arrays of the generated variables / folded constants (`rfl`); each of the 3·max(t, c) iterations of `mix_in` is ONE `rfl`
-(`mixStep` of the literal state of the generated variables = the next literal state); the iterations are chained with
-`iter_succ'`.
-Produced by `tools/gen_rc5_keys_tie.py` (it replays the `let` naming of the translator and checks it against the result tuple
-of `Gen/Keys_Rc5.lean`).
+`Impl/Rc5.lean`, for ALL keys (resp. all key tables / key words for `mix_in`).
+
+The key expansion is ARX with data-dependent rotations: nothing is bit-blasted.  Every equation below whose proof is
+`kernel_rfl` holds BY COMPUTATION (both sides reduce to the same term: the model's loops over literal arrays of
+variables unfold to exactly the straight-line text of the regenerated function) and is checked by the Lean KERNEL's
+definitional-equality test: the tactic `kernel_rfl` closes `a = b` with the term `@rfl _ a` WITHOUT asking the elaborator's
+(much slower, transparency-limited) unifier first; the kernel then type-checks the declaration, i.e. decides `a ≡ b`
+(a wrong statement is rejected: "(kernel) declaration type mismatch").  Nothing is assumed (it is to `rfl` what
+`decide +kernel` is to `decide`).
+
+Per instantiation:
+  * `_mix_in_eq`            : regenerated `mix_in` = `mixIn`, for ALL key tables and ALL key words      (kernel_rfl)
+  * `_key_into_words_eq`    : regenerated `key_into_words` = `keyIntoWords` of the unpacked key, all keys (kernel_rfl)
+  * `_initialize_expanded_key_table_eq` : = `initTable`                                                 (decide +kernel)
+  * `_substitute_key_unfold`, `_new_unfold` : the regenerated `substitute_key` / `new` (calls inlined and constants folded
+    by the translator) are the regenerated `mix_in` applied to the regenerated `initialize_expanded_key_table` and
+    `key_into_words`                                                                                     (kernel_rfl)
+  * `_substitute_key_eq`, `_new_eq` : = `substituteKey w r b (unpackBE b key)` for all keys — composition of the above
+    (no computation).
+(A direct `kernel_rfl` of `_new_eq` works for u8 and u16 only: with 32/64-bit words the kernel runs into a unary recursion on
+a folded 32-bit constant; the route through the generic `_mix_in_eq` avoids comparing folded constants with model terms.)
+Produced by `tools/tie_gen/bigstate/gen_rc5_keys_tie.py`.
 -/
 namespace BC.GenKeys.Rc5
 open BC BC.Rc5 BC.Gen.Fn
 set_option maxRecDepth 100000
 
 open Lean Elab Tactic Meta in
-/-- make the (hygienic) names of the local `let` variables introduced by `extract_lets` accessible -/
-elab "name_lets" : tactic => do
-  liftMetaTactic fun g => g.withContext do
-    let mut lctx ← getLCtx
-    for d in lctx do
-      if d.isLet then lctx := lctx.setUserName d.fvarId d.userName.eraseMacroScopes
-    let g' ← mkFreshExprMVarAt lctx (← getLocalInstances) (← g.getType) .syntheticOpaque (← g.getTag)
-    g.assign g'
-    return [g'.mvarId!]
-
-/-- one iteration of `mix_in` on a literal state: every component of the next state separately (`rfl` each; the index
-updates by `simp`: `%` of literals) -/
-theorem mixStep_lit {w : Nat} (s : MixSt w) (S' L' : Array (BitVec w)) (i' j' : Nat) (a' b' : BitVec w)
-    (hS : s.S.setIfInBounds s.i (rotlW (s.S.getD s.i 0 + s.a + s.b) (BitVec.ofNat w 3)) = S')
-    (ha : S'.getD s.i 0 = a')
-    (hL : s.L.setIfInBounds s.j (rotlW (s.L.getD s.j 0 + a' + s.b) (a' + s.b)) = L')
-    (hb : L'.getD s.j 0 = b')
-    (hi : (s.i + 1) % S'.size = i') (hj : (s.j + 1) % L'.size = j') :
-    mixStep s = { S := S', L := L', i := i', j := j', a := a', b := b' } := by
-  subst hS ha hL hb hi hj; rfl
-
-/-- one iteration of the loop of `key_into_words` -/
-theorem kiwLoop_step (w : Nat) (key : Bytes) (i : Nat) (L L' : Array (BitVec w))
-    (h : L.setIfInBounds (i / wordBytes w) ((L.getD (i / wordBytes w) 0).rotateLeft 8 + (key.getD i 0).setWidth w) = L') :
-    kiwLoop w key (i + 1) L = kiwLoop w key i L' := by
-  subst h; rfl
+/-- close `a = b` by `@rfl _ a`, the definitional equality `a ≡ b` being checked by the kernel only -/
+elab "kernel_rfl" : tactic => do
+  let g ← getMainGoal
+  let t ← instantiateMVars (← g.getType)
+  let some (_, lhs, _) := t.eq? | throwError "kernel_rfl: not an equality"
+  g.assign (← mkEqRefl lhs)
 
 """
 for w, r, b in INST:
     pre = f"rc5_{w}_{r}_{b}"
     u, t = w // 8, 2 * (r + 1)
     c = (b + u - 1) // u
-    P, Q = PQ[w]
-    S0 = [(P + i * Q) & ((1 << w) - 1) for i in range(t)]
     tupT = " × ".join([f"BitVec {w}"] * t)
     tupC = " × ".join([f"BitVec {w}"] * c)
     xs = [f"x{i}" for i in range(t)]
-    ys = [f"x{i}" for i in range(c)]
+    ys = [f"y{i}" for i in range(c)]
+    S = [f"s{i}" for i in range(t)]
+    L = [f"l{i}" for i in range(c)]
     out += f"""/-! ### {pre}: `RC5<u{w}, U{r}, U{b}>` ({t} key-table words, {c} key words, {3 * max(t, c)} mixing iterations) -/
 
 /-- the result tuple of the regenerated functions as the model's array -/
@@ -155,60 +68,55 @@ def {pre}_kw (t : {tupC}) : Array (BitVec {w}) :=
   match t with
   | ({", ".join(ys)}) => #[{", ".join(ys)}]
 
-/-- `{pre}_key_into_words` (regenerated `RC5::key_into_words`) is the model's `keyIntoWords` -/
+/-- the regenerated `mix_in` on tuples -/
+def {pre}_mix_in_t (S : {tupT}) (L : {tupC}) : {tupT} :=
+  match S, L with
+  | ({", ".join(xs)}), ({", ".join(ys)}) => {pre}_mix_in {" ".join(xs + ys)}
+
+/-- `{pre}_mix_in` (regenerated `RC5::mix_in`) is the model's `mixIn`, for all key tables and key words -/
+theorem {pre}_mix_in_eq ({" ".join(S + L)} : BitVec {w}) :
+    {pre}_tbl ({pre}_mix_in {" ".join(S + L)}) = mixIn #[{", ".join(S)}] #[{", ".join(L)}] := by
+  kernel_rfl
+
+theorem {pre}_mix_in_t_eq (S : {tupT}) (L : {tupC}) :
+    {pre}_tbl ({pre}_mix_in_t S L) = mixIn ({pre}_tbl S) ({pre}_kw L) := by
+  obtain ⟨{", ".join(S)}⟩ := S
+  obtain ⟨{", ".join(L)}⟩ := L
+  exact {pre}_mix_in_eq {" ".join(S + L)}
+
+/-- `{pre}_key_into_words` (regenerated `RC5::key_into_words`) is the model's `keyIntoWords`, for all keys -/
 theorem {pre}_key_into_words_eq (key : BitVec {8*b}) :
     {pre}_kw ({pre}_key_into_words key) = keyIntoWords {w} {b} (unpackBE {b} key) := by
-  unfold {pre}_key_into_words
-  extract_lets -merge
-  name_lets
-{kiw_proof(w, r, b)}  rw [hL]
-  rfl
+  kernel_rfl
 
 /-- `{pre}_initialize_expanded_key_table` (regenerated) is the model's `initTable` -/
 theorem {pre}_initialize_expanded_key_table_eq :
     {pre}_tbl {pre}_initialize_expanded_key_table = initTable {w} {r} := by decide +kernel
 
+/-- the regenerated `substitute_key` (calls inlined, constants folded) is the regenerated `mix_in` of the regenerated
+`initialize_expanded_key_table` and `key_into_words` -/
+theorem {pre}_substitute_key_unfold (key : BitVec {8*b}) :
+    {pre}_substitute_key key = {pre}_mix_in_t {pre}_initialize_expanded_key_table ({pre}_key_into_words key) := by
+  kernel_rfl
+
+/-- likewise `RC5::new` (`Self {{ key_table: Self::substitute_key(key) }}`) -/
+theorem {pre}_new_unfold (key : BitVec {8*b}) :
+    {pre}_new key = {pre}_mix_in_t {pre}_initialize_expanded_key_table ({pre}_key_into_words key) := by
+  kernel_rfl
+
+/-- `{pre}_substitute_key` (regenerated `RC5::substitute_key`) is the model's `substituteKey`, for all keys -/
+theorem {pre}_substitute_key_eq (key : BitVec {8*b}) :
+    {pre}_tbl ({pre}_substitute_key key) = substituteKey {w} {r} {b} (unpackBE {b} key) := by
+  rw [{pre}_substitute_key_unfold, {pre}_mix_in_t_eq, {pre}_initialize_expanded_key_table_eq,
+    {pre}_key_into_words_eq, substituteKey]
+
+/-- `{pre}_new` (regenerated `RC5::new`, the field `key_table` of the constructed cipher) is the model's
+`substituteKey`, for all keys -/
+theorem {pre}_new_eq (key : BitVec {8*b}) :
+    {pre}_tbl ({pre}_new key) = substituteKey {w} {r} {b} (unpackBE {b} key) := by
+  rw [{pre}_new_unfold, {pre}_mix_in_t_eq, {pre}_initialize_expanded_key_table_eq,
+    {pre}_key_into_words_eq, substituteKey]
+
 """
-    for fn, mode in (("mix_in", "mix"), ("substitute_key", "key"), ("new", "key")):
-        nm = Names()
-        if mode == "mix":
-            S = [f"key_table{i}" for i in range(t)]
-            L = [f"key_as_words{i}" for i in range(c)]
-            L0, states, kst = replay(w, r, b, S, L, nm, False)
-        else:
-            L0, states, kst = replay(w, r, b, S0, None, nm, True)
-        final = states[-1][0]
-        res = body(f"{pre}_{fn}").strip().splitlines()[-1].strip()
-        assert res == "(" + ", ".join(lit(x, w) for x in final) + ")", (pre, fn, res[:200], final[:5])
-        N = len(states) - 1
-        if mode == "mix":
-            args = " ".join(S + L)
-            binder = f"({args} : BitVec {w})"
-            stmt = f"{pre}_tbl ({pre}_mix_in {args}) = mixIn #[{', '.join(S)}] #[{', '.join(L)}]"
-            doc = f"`{pre}_mix_in` (regenerated `RC5::mix_in`) is the model's `mixIn`, for all key tables and key words"
-        else:
-            binder = f"(key : BitVec {8*b})"
-            stmt = f"{pre}_tbl ({pre}_{fn} key) = substituteKey {w} {r} {b} (unpackBE {b} key)"
-            doc = f"`{pre}_{fn}` (regenerated `RC5::{fn}`" + (", the field `key_table` of the constructed cipher" if fn == "new" else "") + ") is the model's `substituteKey`, for all keys"
-        out += f"/-- {doc} -/\ntheorem {pre}_{fn}_eq {binder} :\n    {stmt} := by\n"
-        out += f"  unfold {pre}_{fn}\n  extract_lets -merge\n  name_lets\n"
-        s0 = st(states[0], w)
-        if mode == "key":
-            out += kiw_steps(w, b, kst)
-            out += f"  have hS : initTable {w} {r} = #[{', '.join(lit(x, w) for x in S0)}] := by decide +kernel\n"
-            out += f"  have hM : mixIn #[{', '.join(lit(x, w) for x in S0)}] #[{', '.join(L0)}] = (iter mixStep {N} {s0}).S := rfl\n"
-        else:
-            out += f"  have hM : mixIn #[{', '.join(S)}] #[{', '.join(L)}] = (iter mixStep {N} {s0}).S := rfl\n"
-        out += f"  have e0 : iter mixStep 0 {s0} = {s0} := rfl\n"
-        for k in range(N):
-            S1, L1, i1, j1, a1, b1 = states[k + 1]
-            arr = lambda A: "#[" + ", ".join(lit(x, w) for x in A) + "]"
-            out += (f"  have e{k+1} : iter mixStep {k+1} {s0} = {st(states[k+1], w)} := by\n    rw [iter_succ', e{k}]\n"
-                    f"    exact mixStep_lit {st(states[k], w)} {arr(S1)} {arr(L1)} {i1} {j1} {lit(a1, w)} {lit(b1, w)} rfl rfl rfl rfl (by simp) (by simp)\n")
-            out += f"  clear e{k}\n"
-        if mode == "key":
-            out += f"  rw [substituteKey, hL, hS, hM, e{N}]\n  rfl\n\n"
-        else:
-            out += f"  rw [hM, e{N}]\n  rfl\n\n"
 out += "end BC.GenKeys.Rc5\n"
 open(sys.argv[1], "w").write(out)
